@@ -99,4 +99,53 @@ example : inScope (restoreScopeDir (b "/") []) (b "/p/x") = true ∧ inScope (re
 example : parseIndexes (b "0, 2-3,+1") 4 = .ok [0, 2, 3, 1] ∧ parseIndexes (b "1-2-3") 9 = .crash ∧
           parseIndexes (b "3-1") 9 = .ok [] ∧ parseIndexes (b "4") 4 = .invalid := by decide +kernel
 
+/-! ### the trash directory `trash-restore` reads
+
+`InfoFiles.all_info_files(trash_dir)` lists `join(trash_dir, "info")` with the trash directory AS
+SPELLED, so it is the kernel that decides which directory the string names (symlinks followed, `..`
+taken in the directory reached).  Until the fix the code applied `os.path.normpath` first: the
+textual collapse of `link/..` made `--trash-dir link/../T` read the info directory of ANOTHER
+directory. -/
+
+/-- Every entry `trash-restore` builds for the trash directory `t` comes from a trashinfo name of
+    the listing of `pjoin t "info"` — the string as given, resolved by the kernel (`listdirStr`) —
+    and its info path is that string joined with the name. -/
+theorem restore_reads_named_trash_dir (fs : FS) (cwd : CPath) (t v : Bytes) (ns : List Bytes)
+    (h : listdirStr fs cwd (pjoin t (b "info")) = some ns) :
+    ∀ e ∈ restoreEntriesOf fs cwd t v,
+      ∃ n ∈ ns, isTrashinfoName n = true ∧ e.info = pjoin (pjoin t (b "info")) n :=
+  Proofs.C13.restore_reads_named_trash_dir fs cwd t v ns h
+
+section NamedEx
+open Proofs.C13.NamedEx
+
+/-- The world `W`: `/jump -> /deep/inner`, the trash directory `/ct` holds the entry `a`, the trash
+    directory `/deep/ct` the entry `b`.  `--trash-dir /jump/../../ct`: the kernel follows `/jump`
+    to `/deep/inner`, goes up twice and names `/ct`; the entries come from `/ct/info`, their info
+    paths are built on the string as spelled. -/
+theorem restore_named_example :
+    (FS.resolve W [] (b "/jump/../../ct/info") true).toOption = some [b "ct", b "info"] ∧
+    listdirStr W [] (pjoin (b "/jump/../../ct") (b "info")) = some [b "a.trashinfo"] ∧
+    restoreEntriesOf W [] (b "/jump/../../ct") (b "/") =
+      [{ loc := b "/x/a", date := dateEx, info := b "/jump/../../ct/info/a.trashinfo" }] :=
+  Proofs.C13.NamedEx.named_up_up
+
+/-- The spelling on which kernel and textual collapse DISAGREE, same world: `/jump/../ct` is
+    `/deep/ct` for the kernel (entry `b`: what the scan returns), while
+    `normpath "/jump/../ct" = "/ct"` is the other trash directory (entry `a`: what the code read
+    before the fix). -/
+theorem restore_named_not_collapsed :
+    (FS.resolve W [] (b "/jump/../ct/info") true).toOption = some [b "deep", b "ct", b "info"] ∧
+    normpath (b "/jump/../ct") = b "/ct" ∧
+    listdirStr W [] (pjoin (b "/jump/../ct") (b "info")) = some [b "b.trashinfo"] ∧
+    listdirStr W [] (pjoin (normpath (b "/jump/../ct")) (b "info")) = some [b "a.trashinfo"] ∧
+    restoreEntriesOf W [] (b "/jump/../ct") (b "/") =
+      [{ loc := b "/x/b", date := dateEx, info := b "/jump/../ct/info/b.trashinfo" }] ∧
+    restoreEntriesOf W [] (normpath (b "/jump/../ct")) (b "/") =
+      [{ loc := b "/x/a", date := dateEx, info := b "/ct/info/a.trashinfo" }] :=
+  Proofs.C13.NamedEx.named_not_collapsed
+
+example : dateEx.isSome = true := by decide +kernel
+end NamedEx
+
 end TrashVerif.C13
